@@ -515,3 +515,65 @@ def run_extprobe(files, storage_rel, names, scratch, timeout=30.0):
     if status != "ok":
         raise HarnessError(f"external probe child: {status}")
     return res
+
+
+# ======================================================================= Example.run_pytest (third executor)
+
+
+def _runpytest_child(files, spec, scratch, out_path):
+    import tempfile
+
+    sys.dont_write_bytecode = True
+    _base_env(spec.get("env"))
+    os.environ.pop("PYTEST_DISABLE_PLUGIN_AUTOLOAD", None)  # the helper starts a plain `python -m pytest`; the plugin is found through its entry point
+    os.environ["PYTHONHASHSEED"] = "0"
+    _redirect(out_path)
+    _purge_modules()
+    assert_sut_is_repo()
+    tmproot = os.path.join(scratch, "tmp")
+    os.makedirs(tmproot, exist_ok=True)
+    counter = [0]
+
+    def mkdtemp(suffix=None, prefix=None, dir=None):
+        counter[0] += 1
+        d = os.path.join(tmproot, f"p{counter[0]}")
+        os.makedirs(d)
+        return d
+
+    tempfile.mkdtemp = mkdtemp
+    from inline_snapshot.testing import Example
+
+    changed, report, rc, stderr = Capture(), Capture(), Capture(), Capture()
+    args = ["-p", "no:cacheprovider"]
+    if spec.get("flags") is not None:
+        args.append("--inline-snapshot=" + spec["flags"])
+    res = {"exc": None}
+    try:
+        new = Example(dict(files)).run_pytest(args, changed_files=changed, report=report, returncode=rc, term_columns=160)
+        res["files"] = dict(new.files)
+    except BaseException as e:
+        import traceback
+
+        res["exc"] = type(e).__name__
+        res["exc_tb"] = "".join(traceback.format_exception(type(e), e, e.__traceback__))[-2000:]
+        res["files"] = None
+    res["changed"] = changed.value if changed.seen else None
+    res["report"] = report.value if report.seen else None
+    res["rc"] = rc.value if rc.seen else None
+    return res
+
+
+def run_runpytest(files, spec, scratch, timeout=180.0):
+    import shutil
+
+    out_path = os.path.join(scratch, "out.txt")
+    shutil.rmtree(os.path.join(scratch, "tmp"), ignore_errors=True)
+    status, res = fork_run(lambda: _runpytest_child(files, spec, scratch, out_path), timeout)
+    res = res or {}
+    res["status"] = status
+    try:
+        with open(out_path, encoding="utf-8", errors="replace") as f:
+            res["out"] = f.read()
+    except FileNotFoundError:
+        res["out"] = ""
+    return res
